@@ -9,7 +9,7 @@ head=$(git -C /repo rev-parse HEAD)
 if [ ! -d "$wt" ]; then git -C /repo worktree add -q --detach "$wt" "$head" || exit 2; fi
 git -C "$wt" checkout -q -- . && git -C "$wt" checkout -q --detach "$head" || exit 2
 git -C "$wt" apply "$patch" || { echo "patch does not apply"; exit 2; }
-out=$(cd /verif && WF_REPO="$wt" ./check "$id" "$tier" 2>&1); rc=$?
+out=$(cd "$(dirname "$0")/.." && WF_REPO="$wt" ./check "$id" "$tier" 2>&1); rc=$?
 git -C "$wt" checkout -q -- .
 echo "$out" | grep -E "VIOLATION|HARNESS|KNOWN" | cut -c1-300 | head -8
 echo "$(basename "$(dirname "$patch")")/$(basename "$patch") $id rc=$rc"
